@@ -21,7 +21,8 @@ IO_BLOCKS = [1, 3, 7, 13, 64, 4096, None, None]
 def gen_knobs(rng):
     return {'compression': rng.choice([None, 'blsc', 'blsc']), 'cbs': rng.choice([16, 64, 1 << 10, 1 << 22]),
             'junk': rng.random() < 0.4, 'io_block': rng.choice(IO_BLOCKS), 'shuffle_glob': rng.random() < 0.5,
-            'glob_seed': rng.randrange(1 << 20), 'poison': rng.choice(['A', 'B'])}
+            'glob_seed': rng.randrange(1 << 20), 'poison': rng.choice(['A', 'B']),
+            'prelude_seed': rng.randrange(1 << 20) if rng.random() < 0.3 else None}
 
 
 @contextlib.contextmanager
@@ -67,6 +68,30 @@ def environment(knobs, faults=None):
     finally:
         cfg.io_block_size = old_block
         pathlib.Path.glob = orig_glob
+
+
+def prelude(world, knobs, root, faults=None):
+    """History: before the operations of the case, another catalogue of the *same* BoxSize but different
+    VelZSpace_to_kms / ppd / contents is loaded in the same process (what a user looping over redshift
+    slices does).  Results of the case must not depend on it; making the history part of the case keeps
+    any such dependence replayable in a fresh process."""
+    seed = knobs.get('prelude_seed')
+    if seed is None:
+        return
+    from . import world as W
+    w2 = W.gen_world(random.Random(seed), max_slabs=2, max_halos=3, max_parts=2, want_clean=True)
+    w2['header']['BoxSize'] = world['header']['BoxSize']
+    w2['header']['VelZSpace_to_kms'] = world['header']['VelZSpace_to_kms'] * 1.75 + 11.0
+    w2['header']['ppd'] = world['header']['ppd'] * 2
+    w2['header']['SimName'] = 'PreludeSim'
+    sub = os.path.join(root, 'prelude')
+    os.makedirs(sub, exist_ok=True)
+    gd, _ = W.write_world(w2, sub, {'compression': None, 'junk': False})
+    with environment({'poison': knobs.get('poison', 'A')}):
+        for convert in (True, False):
+            load(gd, cleaned=True, subsamples=True, fields='all', convert_units=convert)
+    if faults is not None:
+        bump(faults, 'prior-load-of-another-catalogue-in-the-same-process')
 
 
 def tree_digest(root):
